@@ -29,3 +29,18 @@ fn c31_zero_copy_decoders_panic_on_misaligned_slice() {
     assert!(r1.is_err(), "try_bytes_to_words no longer panics: finding is stale");
     assert!(r2.is_err(), "bytes_to_words no longer panics: finding is stale");
 }
+
+/// open (C13): for an ill-formed sequence whose lead byte is acceptable but a
+/// later byte is not a continuation byte, the reported offset is the offending
+/// byte, not the length of the longest valid prefix (std's valid_up_to).
+#[test]
+fn c13_continuation_error_offset_is_not_valid_up_to() {
+    use succinctly::text::utf8::{validate_utf8, Utf8ErrorKind};
+    let input = [b'@', 0xC2, b'A', b'!'];
+    let e = validate_utf8(&input).unwrap_err();
+    let valid_up_to = std::str::from_utf8(&input).unwrap_err().valid_up_to();
+    assert_eq!(valid_up_to, 1);
+    assert_eq!(e.kind, Utf8ErrorKind::InvalidContinuationByte);
+    assert_eq!(e.offset, 2, "offset now equals valid_up_to?");
+    assert_ne!(e.offset, valid_up_to, "finding is stale");
+}
